@@ -232,3 +232,49 @@ Proof.
   split; vm_compute; reflexivity.
 Qed.
 Print Assumptions C18_wrong_predecessor_nonvacuous.
+
+(* --- resolved content (symlinked install paths) ---------------------------------------- *)
+(* The tree has symlinks (target = node id: artifact path, file outside the artifact directories, or
+   nothing).  [resolve] = the bytes read THROUGH a path.
+   After an admitted apply from a reachable state whose snapshot completed, and any sequence of rollback
+   attempts / obstacle removals, a rollback that reports success has put back the WHOLE tree — not just
+   kind / mode / link target of the artifact paths: every node is as before, so every path resolves to
+   the bytes it resolved to before the upgrade. *)
+Theorem C18_rollback_restores_whole_tree :
+  forall c f ops0 T Q F w1 r1 b gi, let w := exec repaired (init_world c f) ops0 in
+  apply repaired T Q F w = (w1, r1) -> admits T Q w = true ->
+  g_base w1 = Some (true, b, gi) ->
+  forall ops, rb_only ops ->
+  forall w' r m, In (w', (r, m)) (run repaired w1 ops) -> r = RRbOk ->
+  (forall q, fs w' q = fs w q) /\ (forall p n, resolve (fs w') p n = resolve (fs w) p n).
+Proof. exact crash_then_rollback_resolved. Qed.
+Print Assumptions C18_rollback_restores_whole_tree.
+
+(* Over all histories: every reported rollback / auto-rollback, as long as no operator edit happened since
+   the upgrade began, leaves every artifact path of that upgrade resolving to its pre-upgrade bytes. *)
+Theorem C18_reported_rollback_resolves_as_before :
+  forall c f ops o w' r m,
+  step repaired (exec repaired (init_world c f) ops) o = (w', (r, m)) -> step_res o w' r <> MonMixed.
+Proof. exact reachable_resolved. Qed.
+Print Assumptions C18_reported_rollback_resolves_as_before.
+
+(* non-vacuity: artifact 0 is a symlink to file 100 outside the artifact directories (bytes 50), artifact 1
+   a symlink chain 1 -> 101 -> 3 (bytes 13); the upgrade replaces both links, health fails, the auto-rollback
+   reports success: both are links again and resolve to 50 and 13, file 100 was never written *)
+Definition fs_links : path -> option file :=
+  fun p => if N.eqb p 0 then Some (Sym 100) else if N.eqb p 1 then Some (Sym 101)
+           else if N.eqb p 3 then Some (Reg 13 420) else if N.eqb p 100 then Some (Reg 50 420)
+           else if N.eqb p 101 then Some (Sym 3) else None.
+Example C18_nonvacuous_resolved :
+  exists w1 w',
+    fst (apply repaired (tar_ex 2 PrevNone) no_opts dies_mid_swap (init_world 1 fs_links)) = w1 /\
+    resolve (fs w1) 0 16 = Some 20 /\ resolve (fs w1) 1 16 = Some 13 /\
+    apply repaired (tar_ex 2 PrevNone) no_opts health_fails (init_world 1 fs_links) = (w', RErrRolledBack) /\
+    resolve (fs w') 0 16 = Some 50 /\ resolve (fs w') 1 16 = Some 13 /\
+    ofile_eqb (fs w' 0) (Some (Sym 100)) = true /\ ofile_eqb (fs w' 100) (Some (Reg 50 420)) = true /\
+    mon_resolved w' = MonOk.
+Proof.
+  do 2 eexists. split; [reflexivity|]. split; [vm_compute; reflexivity|]. split; [vm_compute; reflexivity|].
+  split; [vm_compute; reflexivity|]. repeat split; vm_compute; reflexivity.
+Qed.
+Print Assumptions C18_nonvacuous_resolved.
